@@ -22,7 +22,7 @@ import z3
 
 from . import ops
 from .explore import SymRaise
-from .values import (Sym, SBool, SInt, SReal, SFP, SStr, SBytes, SHex, SOpaque, Unsupported, SNorm, SBytesBV,
+from .values import (Sym, SBool, SInt, SReal, SFP, SStr, SBytes, SHex, SOpaque, Unsupported, SNorm, SBytesBV, SStrList, Obj,
                      contains_sym, pytype_of, FP64, RNE, fp_const)
 
 BUILTIN_NAMES = {
@@ -914,6 +914,9 @@ def _native_table():
     }
     import unicodedata
     t[unicodedata.normalize] = m_unicode_normalize
+    import re as _re
+    t[_re.sub] = m_re_sub
+    t[_re.split] = m_re_split
     for alg in DIGEST_BITS:
         f = getattr(hashlib, alg, None)
         if f is not None:
@@ -1173,6 +1176,10 @@ def str_method(ctx, interp, s, name, args, kwargs):
             return getattr(s, name)(*args, **kwargs)
         except Exception as e:
             raise SymRaise(e)
+    if name == "join" and args and isinstance(args[0], SStrList):
+        ctx.note("stub: sep.join(pieces) of an uninterpreted split is an uninterpreted function py_join(sep, pieces)")
+        f = z3.Function("py_join", z3.StringSort(), Obj, z3.StringSort())
+        return SStr(f(ops.str_term(s), args[0].term))
     if name == "join":
         items = interp.iterate(args[0])
         out = ""
@@ -1231,6 +1238,10 @@ def str_method(ctx, interp, s, name, args, kwargs):
         ctx.note("stub: str.%s is an uninterpreted function of its receiver" % name)
         f = z3.Function("py_str_%s_%s" % (name, common_hash(args)), z3.StringSort(), z3.StringSort())
         return SStr(f(s.term))
+    if isinstance(s, SStr) and name in _PURE_STR_TO_LIST and not contains_sym(args) and not contains_sym(kwargs):
+        ctx.note("stub: str.%s is an uninterpreted function of its receiver (its result can only be joined again)" % name)
+        f = z3.Function("py_str_%s_%s" % (name, common_hash(list(args) + sorted(kwargs.items()))), z3.StringSort(), Obj)
+        return SStrList(f(s.term))
     if isinstance(s, SStr) and name in _PURE_STR_TO_BOOL and not args:
         ctx.note("stub: str.%s is an uninterpreted predicate" % name)
         f = z3.Function("py_str_%s" % name, z3.StringSort(), z3.BoolSort())
@@ -1287,6 +1298,7 @@ def str_format(ctx, interp, s, name, args, kwargs):
 
 _PURE_STR_TO_STR = {"upper", "casefold", "title", "capitalize", "swapcase", "lstrip", "rstrip", "strip", "replace", "zfill",
                     "ljust", "rjust", "center", "expandtabs", "removeprefix", "removesuffix"}
+_PURE_STR_TO_LIST = {"split", "rsplit", "splitlines"}
 _PURE_STR_TO_BOOL = {"isdigit", "isalpha", "isalnum", "isdecimal", "isnumeric", "isspace", "islower", "isupper", "istitle",
                      "isidentifier", "isprintable"}
 
@@ -1308,6 +1320,38 @@ def m_unicode_normalize(ctx, interp, args, kwargs):
         raise Unsupported("unicodedata.normalize with symbolic form")
     ctx.note("stub: unicodedata.normalize(%s, .) is an uninterpreted function" % form)
     return SStr(z3.Function("py_unicode_normalize_%s" % form, z3.StringSort(), z3.StringSort())(v.term))
+
+
+def m_re_sub(ctx, interp, args, kwargs):
+    if not contains_sym(args) and not contains_sym(kwargs):
+        import re as _re
+        try:
+            return _re.sub(*args, **kwargs)
+        except Exception as e:
+            raise SymRaise(e)
+    if len(args) >= 3 and isinstance(args[0], str) and isinstance(args[1], str) and isinstance(args[2], SStr) \
+            and not contains_sym(args[3:]) and not contains_sym(kwargs):
+        ctx.note("stub: re.sub(constant pattern, constant replacement, .) is an uninterpreted function of the string")
+        f = z3.Function("py_re_sub_%s" % common_hash(list(args[:2]) + list(args[3:]) + sorted(kwargs.items())),
+                        z3.StringSort(), z3.StringSort())
+        return SStr(f(args[2].term))
+    raise Unsupported("re.sub with symbolic pattern / replacement")
+
+
+def m_re_split(ctx, interp, args, kwargs):
+    if not contains_sym(args) and not contains_sym(kwargs):
+        import re as _re
+        try:
+            return _re.split(*args, **kwargs)
+        except Exception as e:
+            raise SymRaise(e)
+    if len(args) >= 2 and isinstance(args[0], str) and isinstance(args[1], SStr) and not contains_sym(args[2:]) \
+            and not contains_sym(kwargs):
+        ctx.note("stub: re.split(constant pattern, .) is an uninterpreted function of the string")
+        f = z3.Function("py_re_split_%s" % common_hash([args[0]] + list(args[2:]) + sorted(kwargs.items())),
+                        z3.StringSort(), Obj)
+        return SStrList(f(args[1].term))
+    raise Unsupported("re.split with symbolic pattern")
 
 
 _LIST_MUTATORS = {"append", "extend", "insert", "pop", "remove", "clear", "sort", "reverse", "__setitem__",
